@@ -23,7 +23,7 @@ IMPLS = [
      [('traces', 'sub'), ('composition', 'sub'), ('fri', 'sub'), ('proof_of_work', 'sub'), ('log_trace_domain_size', 'u32'),
       ('n_queries', 'u32'), ('log_n_cosets', 'u32'), ('n_verifier_friendly_commitment_layers', 'u32')]),
     ('TransformTo<PowConfigVerifier>@ProofOfWorkConfig', 'ProofOfWorkConfig', 'PowConfigVerifier',
-     [('n_bits', 'raw:r.n_bits as nat == self.n_bits as nat')]),
+     [('n_bits', 'raw:self.n_bits < 256 ==> r.n_bits as nat == self.n_bits as nat')]),
     ('TransformTo<FriConfigVerifier>@FriConfig', 'FriConfig', 'FriConfigVerifier',
      [('log_input_size', 'u32'), ('n_layers', 'u32'), ('inner_layers', 'vsub|stark_proof::TableCommitmentConfig|TableConfigVerifier'),
       ('fri_step_sizes', 'vu32'), ('log_last_layer_degree_bound', 'u32')]),
@@ -46,7 +46,7 @@ IMPLS = [
     ('TransformTo<FriUnsentCommitmentVerifier>@FriUnsentCommitment', 'FriUnsentCommitment', 'FriUnsentCommitmentVerifier',
      [('last_layer_coefficients', 'vbig'), ('inner_layers', 'vbig')]),
     ('TransformTo<PowUnsentCommitmentVerifier>@ProofOfWorkUnsentCommitment', 'ProofOfWorkUnsentCommitment', 'PowUnsentCommitmentVerifier',
-     [('nonce', 'raw:r.nonce as nat == self.nonce.v@')]),
+     [('nonce', 'raw:0 < self.nonce.v@ < 0x1_0000_0000_0000_0000 ==> r.nonce as nat == self.nonce.v@')]),
     ('TransformTo<StarkWitnessVerifier>@StarkWitness', 'StarkWitness', 'StarkWitnessVerifier',
      [('traces_decommitment', 'sub'), ('traces_witness', 'sub'), ('composition_decommitment', 'sub'), ('composition_witness', 'sub'), ('fri_witness', 'sub')]),
     ('TransformTo<TraceDecommitmentVerifier>@TracesDecommitment', 'TracesDecommitment', 'TraceDecommitmentVerifier', [('original', 'sub'), ('interaction', 'sub')]),
@@ -132,9 +132,16 @@ def main():
                 pt, vt = (k.split('|')[1:] if k.startswith('vsub') else ('stark_proof::PubilcMemoryCell', 'AddrValue'))
                 sk = re.sub(r'vec_map_g\(self\.%s,\s*\|x\|\s*x\.transform_to\(\)\s*\)' % f,
                             'vec_map_g(self.%s, |x/*+*/: %s/*-*/| /*+*/-> (o: %s) ensures x.same_as(o) {/*-*/ x.transform_to() /*+*/}/*-*/)' % (f, pt, vt), sk)
+        if pty == 'ProofOfWorkConfig':
+            sk = sk.replace('        PowConfigVerifier { n_bits: self.n_bits as u8 }',
+                            '        proof { assert(self.n_bits < 256); } // [C19:a-difficulty-above-255-is-an-error-not-truncated]\n        PowConfigVerifier { n_bits: self.n_bits as u8 }')
+        if pty == 'ProofOfWorkUnsentCommitment':
+            sk = sk.replace('        PowUnsentCommitmentVerifier { nonce: self.nonce.to_u64_digits()[0] }',
+                            '        proof { assert(self.nonce.v@ < 0x1_0000_0000_0000_0000); } // [C19:a-nonce-above-64-bits-is-an-error-not-truncated]\n        proof { let n = self.nonce.v@; if n > 0 { assert(digits64(n) == seq![(n % 0x1_0000_0000_0000_0000) as u64] + digits64(n / 0x1_0000_0000_0000_0000)); assert(digits64(n)[0] == n as u64); } }\n        PowUnsentCommitmentVerifier { nonce: self.nonce.to_u64_digits()[0] }')
         if pty == 'PublicInput':
-            sk = sk.replace('                Some(dynamic_params_from(params))',
-                            '                proof { assert(params@.len() == 340); } // [C19:a-wrong-number-of-dynamic-params-is-an-error-not-a-panic]\n                Some(dynamic_params_from(params))')
+            sk = sk.replace('                Some(crate::swiftness_air::dynamic::dynamic_params_from(params))',
+                            '                proof { assert(params@.len() == 340); } // [C19:a-wrong-number-of-dynamic-params-is-an-error-not-a-panic]\n                Some(crate::swiftness_air::dynamic::dynamic_params_from(params))')
+            assert 'a-wrong-number-of-dynamic-params' in sk
         o.append('//@repo cli/src/transform.rs impl %s props=C19 implicit=C19%s' % (key, (' rules=' + ','.join(rls)) if rls else ''))
         o.append(sk)
         o.append('//@end')
